@@ -139,6 +139,18 @@ mut("c10_widened_later_slices_not_shifted", "C10", "matrices.py",
     "            new_instance.slices[term.name] = slice_new\n\n            start += delta",
     "            new_instance.slices[term.name] = slice_new\n\n            start += slice_w_original",
     "new group in a term followed by another term")
+mut("c10_warning_filter_leak", "C10", "terms/variable.py",
+    """                "original data set. It's impossible to select appropriate contrasts for them. "
+                "Setting all the indicator variables to zero."
+            )
+""",
+    """                "original data set. It's impossible to select appropriate contrasts for them. "
+                "Setting all the indicator variables to zero."
+            )
+            # do not repeat the same message on every prediction
+            warnings.filterwarnings("ignore", message="The levels")
+""",
+    "a second evaluation with an unseen level in 'warning' mode: the process-wide filter left behind hides it")
 # ------------------------------------------------------------------ C17
 mut("c17_slices_1d_delta", "C17", "matrices.py",
     "            if term.data.ndim == 2:\n                delta = term.data.shape[1]\n            else:\n                delta = 1",
